@@ -190,6 +190,11 @@ def main(chk):
               "permit tcp any any range 1 65534", "permit tcp any eq 1024 any", "deny ip any any"]
     ecases = [(l, (), "", False) for n in (2, 3) for l in itertools.product(EALPHA, repeat=n)]
     cases += ecases
+    # wildcards with many non-contiguous bits whose lowest mask bit is 0, below entries that cover only part of them
+    NALPHA = ["permit ip host 10.0.0.1 any", "permit ip 10.0.0.1 0.0.255.0 any", "permit ip 10.0.0.0 0.0.4.0 any", "deny ip 10.0.0.0 0.0.255.255 any", "permit ip host 10.0.5.1 any",
+              "permit ip 10.0.0.0 0.0.255.255 any", "permit ip 10.0.0.0 0.0.0.255 any"]
+    ncases = [(l, (), "", False) for n in (2, 3) for l in itertools.product(NALPHA, repeat=n)]
+    cases += ncases
     res = pmap(check_delete, cases)
     viol = 0
     for fails, _ in res:
@@ -200,7 +205,8 @@ def main(chk):
                     len(cases), sum(d for _, d in res),
                     f"all ACLs of <= {3 if chk.tier == 'quick' else 4} items over the {len(C11.ALPHABET)}-kind alphabet (+ slice of length 4), flat / numbered / grouped by remark prefix; "
                     f"{len(gcases)} ACLs of 2..3 items over {len(GALPHA)} entries with address groups on both sides; {len(ecases)} ACLs of 2..3 items over {len(EALPHA)} entries "
-                    "with empty port sets (lt 0, lt 1, gt 65535) above ordinary ones",
+                    "with empty port sets (lt 0, lt 1, gt 65535) above ordinary ones; "
+                    f"{len(ncases)} ACLs of 2..3 items over {len(NALPHA)} entries with 256-network wildcards (lowest mask bit 0)",
                     viol, time.time() - t0, [list(acls[80])], exhaustive=True)
     t0 = time.time()
     mcases = ["cover-then-other", "other-then-cover", "edited-in-place"]
